@@ -231,10 +231,10 @@ fn strings_upto(alpha: &[&str], maxlen: usize) -> Vec<String> {
 
 impl Space {
     pub fn new(t: Tier) -> Space {
-        let lists = lists_upto(&elems(), t.pick(3, 4));
+        let lists = lists_upto(&elems(), t.pick(3, 5));
         let short = lists_upto(&elems(), 2);
         // map literals: sequences of (key, value-id) with repetition of keys
-        let maxe = t.pick(3usize, 4usize);
+        let maxe = t.pick(3usize, 5usize);
         let mut maps: Vec<Vec<(usize, usize)>> = vec![vec![]];
         let mut last: Vec<Vec<(usize, usize)>> = vec![vec![]];
         for pos in 0..maxe {
@@ -638,9 +638,9 @@ pub fn run(t: Tier) -> i32 {
     rep.rule = format!(
         "lists: all {} lists of length <= {} over 9 elements (one per type, incl. a nested list and map) x 3 forms (folded literal, literal of bound variables, bound list): value, size (function and method), and l[i] for every int in [-size-2, size+2], i64 extremes, every uint in [0, size+1], u64 extremes and 8 non-integer indices, literal and bound; in-list: every probe x every list of length <= 2; concat-lists: all ordered pairs of lists of length <= 2 in 4 forms; maps: all {} map literals with <= {} entries over keys {{a, b, '', size (also a built-in function name)}} with repetition (last entry wins) in n+4 forms (all constant, each single value variable, all values variable, variable keys, bound map): value, m[k], m.k, k in m for present/absent/non-string keys; strings: all strings of length <= {} over {{a, b, e-acute}} x all needles of length <= 2: substring in, +, size (UTF-8 bytes); bytes: all pairs over 10 byte strings; other-types: `in` and `+` over all ordered pairs of one value per type must fail outside their domains. Non-trivial = the property fixes the outcome; distinct by (family, index, source)",
         sp.lists.len(),
-        t.pick(3, 4),
+        t.pick(3, 5),
         sp.maps.len(),
-        t.pick(3, 4),
+        t.pick(3, 5),
         t.pick(3, 4)
     );
     for f in families(sp) {
